@@ -20,7 +20,7 @@ package rekor
 //@   modifies heap
 //@   ensures[C19.s] true
 //@   // every request carries the caller's context (so that it ends when the cycle does)
-//@   ensures[C19.ctx,C13.ctx] ctx != noCtx() ==> n_noctx == old(n_noctx)
+//@   ensures[C19.ctx,C13.ctx] ctx != noCtx() && ctx != todoCtx() ==> n_noctx == old(n_noctx)
 //@   ensures[C19.ctx,C13.ctx] n_do == old(n_do) + 1 ==> do_ctx == ctx
 
 // The two closures handed to the feeder touch what the log's server sent: no response makes them panic or loop.
